@@ -109,7 +109,7 @@ _DEPTH = re.compile(r'The depth of the complete state graph search is (\d+)')
 
 
 def tlc(module, cfg, workers=8, timeout=1800, simulate=None, seed=None, env=None, cache=True, jvm=None, coverage=False,
-        deadlock=False):
+        deadlock=False, allow_fail=False):
     """Run TLC on spec/<module>.tla with spec/<cfg> (a file name or literal cfg text).
     Returns dict(out=path, states=distinct, transitions=generated, depth, cached, wall_s).
     TLC's result depends only on the specification, never on /repo, so complete runs are cached
@@ -171,6 +171,9 @@ def tlc(module, cfg, workers=8, timeout=1800, simulate=None, seed=None, env=None
     ok = (rc == 0 and 'No error has been found' in txt) or (simulate and rc in (0,) )
     if simulate and rc == 'timeout':
         ok = False
+    if not ok and allow_fail:
+        m['failed'] = True
+        return m
     if not ok:
         log(txt[-3000:])
         shutil.rmtree(cdir, ignore_errors=True) if False else None
